@@ -111,6 +111,7 @@ func cmdCheck(args []string) int {
 	verbose := fs.Bool("v", false, "verbose")
 	jobs := fs.Int("j", 16, "parallel solver jobs")
 	evDir := fs.String("evidence", "", "evidence directory (default <verif>/evidence)")
+	onlyFiles := fs.String("files", "", "development/seed evaluation: restrict the property's function list to the functions edited by this unified diff (already applied to -repo). Callers see only contracts, so the obligations of all other functions are textually those of the unchanged tree")
 	// flags may follow the property id
 	var prop string
 	var rest []string
@@ -153,6 +154,53 @@ func cmdCheck(args []string) int {
 	if err != nil {
 		fmt.Fprintln(os.Stderr, "load:", err)
 		return 2
+	}
+	if *onlyFiles != "" {
+		// the argument is a unified diff (already applied to -repo): keep the functions whose declaration overlaps a hunk
+		type rng struct{ lo, hi int }
+		hunks := map[string][]rng{}
+		if data, err := os.ReadFile(*onlyFiles); err == nil {
+			cur := ""
+			hre := regexp.MustCompile(`^@@ -\d+(?:,\d+)? \+(\d+)(?:,(\d+))? @@`)
+			for _, l := range strings.Split(string(data), "\n") {
+				if strings.HasPrefix(l, "+++ b/") {
+					cur = strings.TrimPrefix(l, "+++ b/")
+				} else if m := hre.FindStringSubmatch(l); m != nil && cur != "" {
+					lo, _ := strconv.Atoi(m[1])
+					n := 1
+					if m[2] != "" {
+						n, _ = strconv.Atoi(m[2])
+					}
+					hunks[cur] = append(hunks[cur], rng{lo, lo + n})
+				}
+			}
+		}
+		var keep []PropFunc
+		for _, pf := range ps.Functions {
+			fi := prog.Funcs[pf.F]
+			if fi == nil || fi.Decl == nil {
+				continue
+			}
+			p0 := prog.Fset.Position(fi.Decl.Pos())
+			p1 := prog.Fset.Position(fi.Decl.End())
+			rel, err := filepath.Rel(*repo, p0.Filename)
+			if err != nil {
+				continue
+			}
+			for _, h := range hunks[rel] {
+				if h.lo <= p1.Line && p0.Line < h.hi {
+					keep = append(keep, pf)
+					break
+				}
+			}
+		}
+		fmt.Printf("restricted to %d of %d functions (those whose declaration overlaps a hunk of %s)\n", len(keep), len(ps.Functions), *onlyFiles)
+		if len(keep) == 0 {
+			// the edited code has no contract of its own (it is inlined into its callers): run the whole list
+			fmt.Println("none of the property's functions is edited directly by this change: running the whole list")
+		} else {
+			ps.Functions = keep
+		}
 	}
 	opts := &Options{Unroll: 2, Budget: 10, Smoke: true, Verbose: false, Jobs: *jobs}
 	if *tier == "thorough" {
@@ -202,8 +250,9 @@ func cmdCheck(args []string) int {
 			if own, ic := refinementPair(prog, fi); own != nil {
 				fr2 := verifyRefine(prog, fi, own, ic, opts)
 				results = append(results, fr2)
+				occ2 := occurrences(fr2.Obls)
 				for _, o := range fr2.Obls {
-					if !o.Smoke && (contains(pf.Skip, baseName(o.Name)) || contains(pf.Skip, skipKey(o))) {
+					if !o.Smoke && skipped(pf.Skip, o, occ2) {
 						undecided = append(undecided, baseName(o.Name)+" -- "+o.Desc)
 						if *tier == "thorough" {
 							extra = append(extra, o)
@@ -250,6 +299,7 @@ func cmdCheck(args []string) int {
 			engineErrors = append(engineErrors, pf.F+": contract error: "+s)
 		}
 		n := 0
+		occ := occurrences(fr.Obls)
 		for _, o := range fr.Obls {
 			if len(pf.Kinds) > 0 && !contains(pf.Kinds, o.Kind) && !o.Smoke {
 				continue
@@ -257,7 +307,7 @@ func cmdCheck(args []string) int {
 			if len(pf.Tags) > 0 && (o.Kind == "post" || o.Kind == "inv") && !contains(pf.Tags, tagName(o.Tag)) {
 				continue
 			}
-			if !o.Smoke && (contains(pf.Skip, baseName(o.Name)) || contains(pf.Skip, skipKey(o))) {
+			if !o.Smoke && skipped(pf.Skip, o, occ) {
 				undecided = append(undecided, baseName(o.Name)+" -- "+o.Desc)
 				if *tier == "thorough" {
 					extra = append(extra, o) // attempted with the long budget, reported, never a violation
@@ -606,6 +656,57 @@ func cmdCheck(args []string) int {
 // skipKey identifies an obligation independently of ordinals: function, kind and description (source text of the
 // clause or of the checked expression).
 func skipKey(o *Obligation) string { return o.Func + "/" + o.Kind + "|" + o.Desc }
+
+// occurrences numbers, per function result, the obligations that share a skip key (same function, kind and clause text:
+// the same postcondition at several returns, the same lemma precondition at several applications): index -> (i, n).
+func occurrences(obls []*Obligation) map[*Obligation][2]int {
+	n := map[string]int{}
+	for _, o := range obls {
+		if !o.Smoke {
+			n[skipKey(o)]++
+		}
+	}
+	seen := map[string]int{}
+	out := map[*Obligation][2]int{}
+	for _, o := range obls {
+		if o.Smoke {
+			continue
+		}
+		k := skipKey(o)
+		out[o] = [2]int{seen[k], n[k]}
+		seen[k]++
+	}
+	return out
+}
+
+// skipped: a skip entry is the obligation's base name, its key (every occurrence), or `key||i/n` (occurrence i of n). If the
+// number of occurrences differs from the n recorded by the status run (the function's structure changed), every occurrence
+// of that key is skipped, as with the plain key.
+func skipped(skip []string, o *Obligation, occ map[*Obligation][2]int) bool {
+	if contains(skip, baseName(o.Name)) {
+		return true
+	}
+	k := skipKey(o)
+	if contains(skip, k) {
+		return true
+	}
+	pre := k + "||"
+	in := occ[o]
+	hit := false
+	for _, e := range skip {
+		if !strings.HasPrefix(e, pre) {
+			continue
+		}
+		var i, n int
+		if _, err := fmt.Sscanf(e[len(pre):], "%d/%d", &i, &n); err != nil || n != in[1] {
+			return true
+		}
+		if i == in[0] {
+			hit = true
+		}
+	}
+	return hit
+}
 
 func funcList(ps *PropSpec) []string {
 	var out []string
